@@ -18,6 +18,15 @@ def gen():
 
 
 def run(tier, replay=None):
+    try:
+        # kernel level (checks/ckernels.py, docs/ckernels.md): the translated murmur3 C kernels proved equal to the spec
+        from checks import ckernels
+    except ImportError:
+        ckernels = None
+    if replay and ckernels is not None:
+        rc = ckernels.maybe_replay("C10", tier, replay)      # None unless the file is a kernel replay
+        if rc is not None:
+            return rc
     rep = mhlib.run_property("C10", ["mur"], tier, replay, n_quick=800, n_thorough=16000, rng_salt=10,
                              extra_assumptions=["_murmur3_x64_128_block / _tail (C) are modelled by Spec/Murmur3.v's mur_body / mur_tail"])
     rep.cov["rule"] = ("cases = (seed, stream <= 8 KiB (thorough 16 KiB), partition into update calls, placements) x families "
@@ -28,4 +37,6 @@ def run(tier, replay=None):
                        "plus 33 state-injection cases per algorithm (total_length around 2^29, 2^30, 2^31, 2^32 - 5 KiB, random interim digests, short suffix) "
                        "and 2 real streams of 2^29 / 2^29 + r bytes per algorithm (thorough: up to 2^32 - 1 KiB) whose expected value is the model "
                        "continued from the context observed after the natively hashed prefix; distinct = distinct (case, family); non-trivial = non-empty stream")
+    if ckernels is not None and not replay:
+        ckernels.kernels_c10(rep, tier)      # obligations of Properties/C10_kernels.v + translator cross-check + protocol
     return rep.finish()
